@@ -585,7 +585,7 @@ def check_exchange(S, rec, rng):
     interim = b"HTTP/1.1 100 Continue\r\n\r\n"
     if expect:
         case["expect"] = True
-        if not out.startswith(interim) and not respond_first:
+        if not out.startswith(interim) and not respond_first and "env" in seen:
             # the application read the body before it answered: a client that waits for the interim response would stall
             rec.violation("C19/no-interim-response-for-expect-100-continue", f"the client asked for 100 Continue and received {out[:80]!r}; {case}", case, monitor="wire-parser")
             return
